@@ -20,6 +20,7 @@ EXTENDS PathHeader, Json
 CONSTANTS MINLEN, MAXLEN,   \* hop fields per segment
           MAXSEG,
           GEN,
+          PEERPATHS,  \* TRUE: peering paths are part of the journeys
           BROKEN      \* "none"; oracle self-checks: "no_ts" (timestamp left out of the MAC input),
                       \* "segid_init" (reversed segments start from beta_1 instead of beta_n)
 
@@ -30,14 +31,22 @@ MacOk(key, hop, inf) == hop.mac = Mac(key, inf.sid, inf.ts, hop.exp, hop.in, hop
 
 (* ---- construction of an authentic header ---------------------------------- *)
 \* a path is a sequence of pieces [n |-> hop fields, cd |-> travelled in construction direction]
-Pieces == UNION {[1..k -> [n : MINLEN..MAXLEN, cd : BOOLEAN]] : k \in 1..MAXSEG}
+Pieces == UNION {[1..k -> [n : MINLEN..MAXLEN, cd : BOOLEAN, peer : {FALSE}]] : k \in 1..MAXSEG}
+\* peering paths: two segments joined by a peering link; the first is travelled against, the second
+\* in construction direction (the peer interface is the construction-ingress of both peer hop
+\* fields); a segment may consist of the peer hop field alone
+PeerPaths == IF PEERPATHS
+             THEN {<<[n |-> a, cd |-> FALSE, peer |-> TRUE], [n |-> b, cd |-> TRUE, peer |-> TRUE]>> : a \in 1..MAXLEN, b \in 1..MAXLEN}
+             ELSE {}
+IsPeering(ps) == Len(ps) = 2 /\ ps[1].peer
 
 POff(ps, k) == IF k = 1 THEN 0 ELSE IF k = 2 THEN ps[1].n ELSE ps[1].n + ps[2].n
 PTotal(ps) == POff(ps, Len(ps)) + ps[Len(ps)].n
 \* the AS (1..m along the journey) that owns travel-order hop t (1-based) of piece k:
 \* consecutive pieces share the crossover AS
-AsOf(ps, k, t) == POff(ps, k) - (k - 1) + t
-NAs(ps) == PTotal(ps) - (Len(ps) - 1)
+\* (on a peering path the two peer hop fields belong to different ASes: nothing is shared)
+AsOf(ps, k, t) == POff(ps, k) - (IF IsPeering(ps) THEN 0 ELSE k - 1) + t
+NAs(ps) == PTotal(ps) - (IF IsPeering(ps) THEN 0 ELSE Len(ps) - 1)
 \* piece / position of global hop index g (1-based)
 PieceOf(ps, g) == IF g <= ps[1].n THEN 1 ELSE IF Len(ps) >= 2 /\ g <= ps[1].n + ps[2].n THEN 2 ELSE 3
 AsOfHop(ps, g) == LET k == PieceOf(ps, g) IN AsOf(ps, k, g - POff(ps, k))
@@ -55,15 +64,26 @@ HopMacAt(ps, k, c) ==
   Mac(Key(AsOf(ps, k, TravelPos(ps[k], c))), Beta(ps, k, c), SegTs(k), 60 + c, EntryIn(k, c), EntryEg(k, c))
 Beta(ps, k, c) == IF c = 1 THEN {<<"segid", k>>} ELSE SymXor(Beta(ps, k, c - 1), HopMacAt(ps, k, c - 1))
 
+\* the peer entry of a peering segment sits at construction position 1 (the AS with the peering
+\* link); it is MACed under the accumulator AFTER that AS's regular hop field
+PeerIf(k) == 900 + k
+PeerMacAt(ps, k) ==
+  Mac(Key(AsOf(ps, k, TravelPos(ps[k], 1))), Beta(ps, k, 2), SegTs(k), 61, PeerIf(k), EntryEg(k, 1))
 HopRec(ps, k, c, g) ==
-  [id |-> g, exp |-> 60 + c, in |-> EntryIn(k, c), eg |-> EntryEg(k, c), mac |-> HopMacAt(ps, k, c), ai |-> FALSE, ae |-> FALSE]
+  IF ps[k].peer /\ c = 1
+  THEN [id |-> g, exp |-> 61, in |-> PeerIf(k), eg |-> EntryEg(k, 1), mac |-> PeerMacAt(ps, k), ai |-> FALSE, ae |-> FALSE]
+  ELSE [id |-> g, exp |-> 60 + c, in |-> EntryIn(k, c), eg |-> EntryEg(k, c), mac |-> HopMacAt(ps, k, c), ai |-> FALSE, ae |-> FALSE]
+\* initial SegID of a piece: the accumulator in front of its first hop field in travel direction
+InitSid(ps, k) ==
+  IF ps[k].peer
+  THEN (IF ps[k].cd \/ ps[k].n = 1 THEN Beta(ps, k, 2) ELSE Beta(ps, k, ps[k].n))
+  ELSE (IF ps[k].cd \/ BROKEN = "segid_init" THEN Beta(ps, k, 1) ELSE Beta(ps, k, ps[k].n))
 
 Authentic(ps) ==
   [sl |-> <<ps[1].n, IF Len(ps) >= 2 THEN ps[2].n ELSE 0, IF Len(ps) >= 3 THEN ps[3].n ELSE 0>>,
    ci |-> 0, ch |-> 0,
    inf |-> [k \in 1..Len(ps) |->
-              [id |-> k, cd |-> ps[k].cd, ts |-> SegTs(k),
-               sid |-> IF ps[k].cd \/ BROKEN = "segid_init" THEN Beta(ps, k, 1) ELSE Beta(ps, k, ps[k].n)]],
+              [id |-> k, cd |-> ps[k].cd, peer |-> ps[k].peer, ts |-> SegTs(k), sid |-> InitSid(ps, k)]],
    hop |-> [g \in 1..PTotal(ps) |->
               LET k == PieceOf(ps, g)
                   t == g - POff(ps, k)
@@ -98,7 +118,7 @@ VARIABLES ps, tm,   \* pieces, tamper (fixed per behaviour)
 
 vars == <<ps, tm, p, as, dir, phase, failedAt, h>>
 
-Init == /\ ps \in Pieces
+Init == /\ ps \in Pieces \cup PeerPaths
         /\ tm \in Tampers(ps)
         /\ p = Tamper(Authentic(ps), tm)
         /\ as = 1 /\ dir = "fwd" /\ phase = "ingress" /\ failedAt = 0 /\ h = <<>>
@@ -146,8 +166,14 @@ Spec == Init /\ [][Next]_vars
 (* ------------------------------- P-layer ----------------------------------- *)
 \* with the right per-AS keys every authentic path verifies at every hop, in both travel
 \* directions, and is delivered at the last AS / back at the first AS
+Delivered ==
+    /\ phase # "failed"
+    /\ (phase = "delivered" /\ dir = "fwd" => (as = NAs(ps) /\ p.ch = PTotal(ps) - 1 /\ p.ci = Len(ps) - 1))
+    /\ (phase = "delivered" /\ dir = "back" => (as = 1 /\ p.ch = PTotal(ps) - 1 /\ p.ci = Len(ps) - 1))
+\* the same for peering paths: holds for SCION's peering rule (PEERIMPL = TRUE), refuted by the code's
+PeeringVerifies == (tm.f = "none" /\ IsPeering(ps)) => Delivered
 AuthenticVerifies ==
-  tm.f = "none" =>
+  (tm.f = "none" /\ ~IsPeering(ps)) =>
     /\ phase # "failed"
     /\ (phase = "delivered" /\ dir = "fwd" => (as = NAs(ps) /\ p.ch = PTotal(ps) - 1 /\ p.ci = Len(ps) - 1))
     /\ (phase = "delivered" /\ dir = "back" => (as = 1 /\ p.ch = PTotal(ps) - 1 /\ p.ci = Len(ps) - 1))
@@ -188,7 +214,7 @@ OneHopVerifies ==
 
 (* ------------------------------ generation --------------------------------- *)
 Terminal == phase = "failed" \/ (phase = "delivered" /\ (dir = "back" \/ tm.f # "none"))
-Case == [pieces |-> ps, tamper |-> tm, owner |-> Owner(ps, tm), nas |-> NAs(ps),
+Case == [pieces |-> ps, peering |-> IsPeering(ps), tamper |-> tm, owner |-> Owner(ps, tm), nas |-> NAs(ps),
          outcome |-> phase, failed_at |-> failedAt, dir |-> dir, walk |-> h]
 Emit == (GEN /\ Terminal) => PrintT(<<"WALK", ToJson(Case)>>)
 =============================================================================
